@@ -346,12 +346,12 @@ impl<F: Float> GaussianMixtureModel<F> {
         let max = weighted_log_prob
             .fold_axis(Axis(1), F::neg_infinity(), |acc, x| acc.max(*x))
             .insert_axis(Axis(1));
-        let log_prob_norm = (&weighted_log_prob - &max)
-            .mapv(|x| x.exp())
-            .sum_axis(Axis(1))
-            .mapv(|x| x.ln())
-            + &max.index_axis(Axis(1), 0);
-        let log_resp = weighted_log_prob - log_prob_norm.to_owned().insert_axis(Axis(1));
+        let shifted = &weighted_log_prob - &max;
+        let log_sum = shifted.mapv(|x| x.exp()).sum_axis(Axis(1)).mapv(|x| x.ln());
+        let log_prob_norm = &log_sum + &max.index_axis(Axis(1), 0);
+        // subtract the normaliser in shifted form as well: far from the data `max` is huge and
+        // would absorb `log_sum`, the responsibilities would then not sum to one
+        let log_resp = shifted - log_sum.insert_axis(Axis(1));
         (log_prob_norm, log_resp)
     }
 
